@@ -17,10 +17,11 @@ ST = ['\\begin{e}', '\\end{e}', '\\begin{f}', '\\end{f}', '\\begin', '\\end', '\
       '{', '}', '[', ']', '$', '$$', '\\(', '\\)', '\\[', '\\]', 'x', ' ', '\n', '\n\n', '%c\n', '%',
       '\\begin{verbatim}', '\\end{verbatim}', '\\begin{equation}', '\\end{equation}', '\\newcommand', '\\cup',
       '\\left(', '\\left', '\\big', '\\\\', '\\%', '\\$', '.', '*', ' {', ' [', '\\end {e}', '{e}', '\\begin{}',
-      '\\end{}', '\\begin{ e}', '\\def', '\\textbf', '\\section', '\\label', '\\begin{itemize}',
+      '\\end{}', '\\begin{ e}', '\\end{e }', '\\begin{ }', '\\end{ }', '\\def', '\\textbf', '\\section', '\\label', '\\begin{itemize}',
       '\\end{itemize}', '\\begin[', 'e', '\\right)', '\\left.', '|']
 SUB = {
-    'env': ['\\begin{e}', '\\end{e}', '\\begin{f}', '\\end{f}', '\\begin', '\\end', '{e}', ' ', 'x', '{', '}', '\\end {e}', '\\a', '['],
+    'env': ['\\begin{e}', '\\end{e}', '\\begin{f}', '\\end{f}', '\\begin', '\\end', '{e}', ' ', 'x', '{', '}', '\\end {e}', '\\a', '[',
+            '\\end{e }', '\\begin{ }', '\\end{ }', '\\begin{ e}'],
     'args': ['\\a', '{', '}', '[', ']', ' ', '\n', '\n\n', 'x', '%c\n', '\\b', ' {', ' [', '.'],
     'math': ['$', '$$', '\\(', '\\)', '\\[', '\\]', 'x', '\\$', '{', '}', '\\cup', '[', '\\left(', '\\begin{equation}', '\\end{equation}', '\\a'],
     'verb': ['\\begin{verbatim}', '\\end{verbatim}', '\\begin{e}', '\\end{e}', '$', '{', '}', 'x', '%', '\n', '\\', '[', '\\end'],
